@@ -5,6 +5,9 @@ import (
 	"go/ast"
 	"go/token"
 	"go/types"
+	"golang.org/x/tools/go/ssa"
+	"strings"
+	"verifsa/internal/paths"
 
 	"verifsa/internal/core"
 	"verifsa/internal/load"
@@ -39,7 +42,7 @@ func runC02(c *core.Ctx) {
 	c.MinInstances("C02-PRIM", 20)
 	c.MinInstances("C02-OPTS", 40)
 	importRules(c, "C20", "C02-PRIM", func(o core.Obligation) bool {
-		return o.Rule == "C20-SHAPE" || o.Rule == "C20-COUNT" || o.Rule == "C20-TERMINAL"
+		return o.Rule == "C20-SHAPE" || o.Rule == "C20-COUNT" || o.Rule == "C20-TERMINAL" || o.Rule == "C20-WHO"
 	})
 	importRules(c, "C16", "C02-OPTS", func(o core.Obligation) bool { return o.Rule != "C16-ADD" && o.Rule != "C16-ACCESSOR" })
 	c.Trust("E2 spec tables (hand transcription of SMPP 3.4, CMPP 2.0/3.0, SGIP 1.2, SMGP 3.0.3; DESIGN.md Appendix A)", "go/types constant evaluation")
@@ -371,8 +374,28 @@ func lenHandRule(c *core.Ctx, p *pduInfo) {
 		c.Unknown("C02-LEN-HAND", key, pos, "cannot compute the symbolic size of the write sequence")
 		return
 	}
-	expr := resolveLocal(p, asg)
-	got, ok := linearize(asg.Info, expr)
+	// the value stored into the length word, taken from SSA (named locals and constants are followed by construction)
+	enc := c.Prog.SSAFunc(p.Methods["IEncode"])
+	var stored ssa.Value
+	nStores := 0
+	if enc != nil && len(enc.Params) > 0 {
+		for _, b := range enc.Blocks {
+			for _, ins := range b.Instrs {
+				if st, ok := ins.(*ssa.Store); ok {
+					if chain, ok := ssaFieldChain(st.Addr, enc.Params[0]); ok && chain == lenField.String() {
+						stored = st.Val
+						nStores++
+					}
+				}
+			}
+		}
+	}
+	if stored == nil || nStores != 1 {
+		c.Unknown("C02-LEN-HAND", key, pos, fmt.Sprintf("the store to the length word %s was not found exactly once in the SSA of IEncode (%d)", lenField, nStores))
+		return
+	}
+	got, ok := ssaLinFields(stored, enc.Params[0], 0)
+	expr := asg.Expr
 	if !ok {
 		c.Unknown("C02-LEN-HAND", key, pos, "length expression is not linear: "+types.ExprString(expr))
 		return
@@ -381,7 +404,7 @@ func lenHandRule(c *core.Ctx, p *pduInfo) {
 		c.Fail("C02-LEN-HAND", key, pos, fmt.Sprintf("length word is assigned %s = %s, but the encoder writes %s octets", types.ExprString(expr), got, want))
 		return
 	}
-	if bad := typedRangeCheck(asg.Info, expr); bad != "" {
+	if bad := ssaRangeCheck(stored); bad != "" {
 		c.Fail("C02-LEN-HAND", key, pos, "length arithmetic can wrap: "+bad)
 		return
 	}
@@ -504,61 +527,186 @@ func ordinal(c *core.Ctx, k string) int {
 
 // lenPrefixRule: Writer.BytesWithLength builds [uint32(written+4)] ++ body in a buffer of written+4 octets.
 func lenPrefixRule(c *core.Ctx) {
-	fn := c.Prog.LookupMethod("packet", "Writer", "BytesWithLength")
-	if fn == nil {
+	m := c.Prog.LookupMethod("packet", "Writer", "BytesWithLength")
+	fn := c.Prog.SSAFunc(m)
+	if m == nil || fn == nil {
 		c.Broken("C02-LEN-PREFIX", "packet.Writer.BytesWithLength", "method not found")
 		return
 	}
-	decl, pkg := c.Prog.FuncDecl(fn)
-	info := pkg.TypesInfo
-	pos := c.Prog.Pos(decl.Pos())
-	var makeSize, putVal, copyOff, written linForm
+	pos := c.Prog.Pos(m.Pos())
+	recv := ssa.Value(fn.Params[0])
+	// a small linearizer on SSA: constants, + and -, conversions transparent, receiver fields as atoms (by field name)
+	var lin func(v ssa.Value, depth int) (linForm, bool)
+	lin = func(v ssa.Value, depth int) (linForm, bool) {
+		if depth > 12 {
+			return linForm{}, false
+		}
+		switch x := v.(type) {
+		case *ssa.Const:
+			if k, ok := constInt(x); ok {
+				return newLin(k), true
+			}
+		case *ssa.Convert:
+			return lin(x.X, depth+1)
+		case *ssa.ChangeType:
+			return lin(x.X, depth+1)
+		case *ssa.BinOp:
+			l, ok1 := lin(x.X, depth+1)
+			r, ok2 := lin(x.Y, depth+1)
+			if ok1 && ok2 {
+				switch x.Op {
+				case token.ADD:
+					return l.add(r, 1), true
+				case token.SUB:
+					return l.add(r, -1), true
+				}
+			}
+		case *ssa.UnOp:
+			if base, f, ok := fieldOfAddr(x.X); ok && base == recv {
+				r := newLin(0)
+				r.terms[f.Name()] = 1
+				return r, true
+			}
+		}
+		return linForm{}, false
+	}
+	var origin func(v ssa.Value, depth int) (ssa.Value, linForm, bool)
+	origin = func(v ssa.Value, depth int) (ssa.Value, linForm, bool) {
+		if sl, ok := v.(*ssa.Slice); ok && depth < 8 {
+			root, off, ok := origin(sl.X, depth+1)
+			if !ok {
+				return nil, linForm{}, false
+			}
+			if sl.Low != nil {
+				l, ok := lin(sl.Low, 0)
+				if !ok {
+					return nil, linForm{}, false
+				}
+				off = off.add(l, 1)
+			}
+			return root, off, true
+		}
+		return v, newLin(0), true
+	}
+	// the result buffer: the MakeSlice that every successful return is rooted at
+	var ms *ssa.MakeSlice
+	for _, b := range fn.Blocks {
+		if ret, ok := b.Instrs[len(b.Instrs)-1].(*ssa.Return); ok && len(ret.Results) == 2 && !paths.IsNilConst(ret.Results[0]) {
+			root, _, _ := origin(ret.Results[0], 0)
+			if x, ok := root.(*ssa.MakeSlice); ok {
+				ms = x
+			}
+		}
+	}
+	written := newLin(4)
+	written.terms["written"] = 1
+	var makeSize, putVal, putOff, copyOff linForm
 	var haveMake, havePut, haveCopy bool
-	var resObj types.Object
-	ast.Inspect(decl.Body, func(n ast.Node) bool {
-		switch x := n.(type) {
-		case *ast.AssignStmt:
-			if len(x.Lhs) == 1 && len(x.Rhs) == 1 {
-				if call, ok := x.Rhs[0].(*ast.CallExpr); ok {
-					if id, ok := call.Fun.(*ast.Ident); ok && id.Name == "make" && len(call.Args) >= 2 {
-						if lf, ok := linearize(info, call.Args[1]); ok {
-							makeSize, haveMake = lf, true
-							if lid, ok := x.Lhs[0].(*ast.Ident); ok {
-								resObj = info.Defs[lid]
-							}
-						}
+	if ms != nil {
+		makeSize, haveMake = lin(ms.Len, 0)
+	}
+	for _, b := range fn.Blocks {
+		for _, ins := range b.Instrs {
+			call, ok := ins.(*ssa.Call)
+			if !ok {
+				continue
+			}
+			if cal := call.Call.StaticCallee(); cal != nil && cal.Name() == "PutUint32" && cal.Signature.Recv() != nil && len(call.Call.Args) == 3 {
+				if !strings.Contains(cal.Signature.Recv().Type().String(), "bigEndian") {
+					continue
+				}
+				if root, off, ok := origin(call.Call.Args[1], 0); ok && ms != nil && root == ssa.Value(ms) {
+					if v, ok := lin(call.Call.Args[2], 0); ok {
+						putVal, putOff, havePut = v, off, true
 					}
 				}
 			}
-		case *ast.CallExpr:
-			if sel, ok := x.Fun.(*ast.SelectorExpr); ok && sel.Sel.Name == "PutUint32" && len(x.Args) == 2 {
-				if wire.OrderOf(c.Prog, info, sel.X) == "big" {
-					if id, ok := x.Args[0].(*ast.Ident); ok && info.Uses[id] == resObj {
-						if lf, ok := linearize(info, x.Args[1]); ok {
-							putVal, havePut = lf, true
-						}
-					}
-				}
-			}
-			if id, ok := x.Fun.(*ast.Ident); ok && id.Name == "copy" && len(x.Args) == 2 {
-				if se, ok := x.Args[0].(*ast.SliceExpr); ok && se.High == nil && se.Low != nil {
-					if bid, ok := se.X.(*ast.Ident); ok && info.Uses[bid] == resObj {
-						if lf, ok := linearize(info, se.Low); ok {
-							copyOff, haveCopy = lf, true
-						}
-					}
+			if bi, ok := call.Call.Value.(*ssa.Builtin); ok && bi.Name() == "copy" && len(call.Call.Args) == 2 {
+				if root, off, ok := origin(call.Call.Args[0], 0); ok && ms != nil && root == ssa.Value(ms) {
+					copyOff, haveCopy = off, true
 				}
 			}
 		}
-		return true
-	})
-	written = newLin(4)
-	written.terms["written"] = 1
+	}
 	c.Decide(haveMake && makeSize.equal(written), "C02-LEN-PREFIX", "packet.Writer.BytesWithLength#alloc", pos,
 		"result buffer has written+4 octets", fmt.Sprintf("result buffer size is %s, expected written + 4", makeSize))
-	c.Decide(havePut && putVal.equal(written), "C02-LEN-PREFIX", "packet.Writer.BytesWithLength#prefix", pos,
-		"first word is big-endian uint32(written+4)", fmt.Sprintf("length word is %s (big-endian PutUint32 into the result found: %v), expected written + 4", putVal, havePut))
+	c.Decide(havePut && putVal.equal(written) && putOff.isConst() && putOff.c == 0, "C02-LEN-PREFIX", "packet.Writer.BytesWithLength#prefix", pos,
+		"first word is big-endian uint32(written+4)", fmt.Sprintf("length word is %s at offset %s (big-endian PutUint32 into the result found: %v), expected written + 4 at offset 0", putVal, putOff, havePut))
 	c.Decide(haveCopy && copyOff.isConst() && copyOff.c == 4, "C02-LEN-PREFIX", "packet.Writer.BytesWithLength#body", pos,
 		"body copied at offset 4", fmt.Sprintf("body is copied at offset %s (found: %v), expected 4", copyOff, haveCopy))
-	_ = token.NoPos
+}
+
+// ssaFieldChain names the field addressed by addr relative to recv ("Header.TotalLength"); ok=false if addr is not a
+// (nested) field of recv.
+func ssaFieldChain(addr ssa.Value, recv ssa.Value) (string, bool) {
+	var parts []string
+	for i := 0; i < 8; i++ {
+		fa, ok := addr.(*ssa.FieldAddr)
+		if !ok {
+			break
+		}
+		_, f, ok := fieldOfAddr(fa)
+		if !ok {
+			return "", false
+		}
+		parts = append([]string{f.Name()}, parts...)
+		addr = fa.X
+	}
+	if addr != recv || len(parts) == 0 {
+		return "", false
+	}
+	return strings.Join(parts, "."), true
+}
+
+// ssaLinFields linearises an integer SSA value over the receiver's fields (atoms named by field chain).
+func ssaLinFields(v ssa.Value, recv ssa.Value, depth int) (linForm, bool) {
+	if depth > 24 {
+		return linForm{}, false
+	}
+	switch x := v.(type) {
+	case *ssa.Const:
+		if k, ok := constInt(x); ok {
+			return newLin(k), true
+		}
+	case *ssa.Convert:
+		return ssaLinFields(x.X, recv, depth+1)
+	case *ssa.ChangeType:
+		return ssaLinFields(x.X, recv, depth+1)
+	case *ssa.BinOp:
+		l, ok1 := ssaLinFields(x.X, recv, depth+1)
+		r, ok2 := ssaLinFields(x.Y, recv, depth+1)
+		if !ok1 || !ok2 {
+			return linForm{}, false
+		}
+		switch x.Op {
+		case token.ADD:
+			return l.add(r, 1), true
+		case token.SUB:
+			return l.add(r, -1), true
+		case token.MUL:
+			if l.isConst() {
+				return newLin(0).add(r, l.c), true
+			}
+			if r.isConst() {
+				return newLin(0).add(l, r.c), true
+			}
+		}
+	case *ssa.UnOp:
+		if chain, ok := ssaFieldChain(x.X, recv); ok {
+			r := newLin(0)
+			r.terms[chain] = 1
+			return r, true
+		}
+	case *ssa.Call:
+		if b, ok := x.Call.Value.(*ssa.Builtin); ok && b.Name() == "len" {
+			if u, ok := x.Call.Args[0].(*ssa.UnOp); ok {
+				if chain, ok := ssaFieldChain(u.X, recv); ok {
+					r := newLin(0)
+					r.terms["len("+chain+")"] = 1
+					return r, true
+				}
+			}
+		}
+	}
+	return linForm{}, false
 }
